@@ -11,8 +11,11 @@ import (
 	"path/filepath"
 	"strings"
 
+	"fortio.org/log"
 	"grol.io/grol/ast"
+	"grol.io/grol/eval"
 	"grol.io/grol/lexer"
+	"grol.io/grol/object"
 	"grol.io/grol/token"
 	"verifharness/common"
 	. "verifharness/common"
@@ -186,6 +189,86 @@ var genFragFloats = []string{"1.5", ".5", "2.", "1e3", "1.5e-3", "0.25"}
 var genFragStrings = []string{`"s"`, `""`, `"a b"`, `"a\"b"`, "`raw`", `"\n\t"`, `"it's"`}
 var genFragInts = []string{"0", "1", "42", "007", "0x1F", "0b101", "1_000", "9223372036854775807"}
 
+// ---- function values: object.Function.Inspect (what println(f), save() and the auto-save write) reuses the compact printer
+// plus its own lambda form; the text must parse back to the function literal it came from.
+
+func inspectCase(c *Ctx, lit string) {
+	c.Eval()
+	src := []byte("f = " + lit)
+	prog, ok := ParseClean(src)
+	if !ok {
+		c.Count("inspect=notclean")
+		return
+	}
+	var txt string
+	func() {
+		defer func() {
+			if r := recover(); r != nil {
+				txt = ""
+				c.Fail("inspect-panic", "INSPECT "+Hx([]byte(lit)), fmt.Sprint(r))
+			}
+		}()
+		st := eval.NewState()
+		st.NoLog = true
+		obj := st.Eval(prog)
+		if fn, isf := obj.(object.Function); isf {
+			txt = fn.Inspect()
+		}
+	}()
+	if txt == "" {
+		c.Count("inspect=notfunction")
+		return
+	}
+	c.Count("inspect=function")
+	prog2, ok2 := ParseClean([]byte("f = " + txt))
+	outcome := "same"
+	if !ok2 {
+		outcome = "rejected"
+	} else if DumpNoComments(prog) != DumpNoComments(prog2) {
+		outcome = "differs"
+	}
+	if outcome != "same" {
+		sig := RTSig(prog, "inspect", outcome)
+		c.Fail(sig, "INSPECT "+Hx([]byte(lit)), fmt.Sprintf("outcome=%s literal=%q inspect=%q", outcome, lit, txt))
+	}
+	c.NonTrivial("inspect:" + txt)
+}
+
+// an expression that starts with a map / array literal or a parenthesised lambda some levels down its left spine
+func leadingLiteral(g *Gen) string {
+	e := g.Pick([]string{`({"a":1,"b":2})`, "({})", `({k:1})`, "([1,2,3])", "(a=>a)", `({1:{2:3}})`, "({})"})
+	n := 1 + g.R.Intn(4)
+	for i := 0; i < n; i++ {
+		switch g.R.Intn(7) {
+		case 0, 1:
+			e += "[" + g.Pick([]string{"k", `"a"`, "1", "a"}) + "]"
+		case 2:
+			e += "." + g.Pick([]string{"a", "b"})
+		case 3:
+			e += "(" + g.Pick([]string{"", "1", "k"}) + ")"
+		default:
+			e += " " + g.Pick([]string{"*", "+", "==", "-", "&&", "||", "<", ":"}) + " " + g.Leaf()
+		}
+	}
+	return e
+}
+
+func funcLiteral(g *Gen, d int) string {
+	ps := g.Pick([]string{"k", "()", "(a,b)", "(a, b, c)", "a", "(..)"})
+	// (an anonymous func(..){..} value is printed in lambda form by Inspect - same function, different IsLambda flag -
+	// so the top-level literal is a lambda or a named function; anonymous func literals still occur inside bodies)
+	switch g.R.Intn(7) {
+	case 0, 1, 2:
+		return ps + " => " + leadingLiteral(g)
+	case 3, 4:
+		return ps + " => " + g.Expr(d)
+	case 5:
+		return ps + " => " + g.Block(d)
+	default:
+		return "func " + g.Pick([]string{"g", "fact"}) + "(a) " + g.Block(d)
+	}
+}
+
 // operator-pair matrix: every parent/child pair, child on either side, explicit source parentheses
 func matrix(c *Ctx, s *st, depth3 bool) {
 	type form struct {
@@ -259,6 +342,9 @@ func run(c *Ctx) {
 		if len(f) >= 2 && f[0] == "TL" {
 			fragCase(c, Unhx(f[1]))
 		}
+		if len(f) >= 2 && f[0] == "INSPECT" {
+			inspectCase(c, string(Unhx(f[1])))
+		}
 		return
 	}
 	var s st
@@ -302,6 +388,20 @@ func run(c *Ctx) {
 			parts = append(parts, fragExpr(c.R, 1+c.R.Intn(3)))
 		}
 		fragCase(c, []byte(strings.Join(parts, []string{"\n", ";", "\n\n", " ;\n"}[c.R.Intn(4)])))
+	}
+	// function values printed by Inspect parse back to the literal they came from
+	log.SetLogLevelQuiet(log.Error)
+	for _, lit := range []string{"a=>a+1", "k => ({\"a\":1})[k]", "k => ({\"a\":1,\"b\":2})[k] * 10", "k => ({})[k] == 1", "()=>{a||b}", "()=>{return 1}",
+		"a=>({y:false})()", "(a,b)=>{a;b}", "func g(a){a+1}", "(a,b)=>if a {b} else {a}", "x=>y=>x+y", "a => ({1:{2:3}})[1][2] + a", "()=>[1,2][0]-1"} {
+		inspectCase(c, lit)
+	}
+	ni := 1500
+	if c.Thorough() {
+		ni = 40000
+	}
+	for i := 0; i < ni; i++ {
+		g := &Gen{R: c.R, O: GenOpts{AvoidKnown: true, Comments: false, MaxDepth: 3}}
+		inspectCase(c, funcLiteral(g, 1+c.R.Intn(3)))
 	}
 	// strings over the byte universe and number forms
 	for i := 0; i < 400; i++ {
